@@ -55,8 +55,24 @@ func (s *session) firstUse(g *gate) {
 	select {
 	case <-g.parked:
 		s.mon.Count("first-use-overlap")
-	case <-time.After(time.Second):
-		s.mon.Count("first-use-not-parked")
+	case r := <-done:
+		// A was answered without entering the factory (no overlap possible): an ordinary first request
+		s.mon.Count("first-use-no-factory-call")
+		close(g.release)
+		finishA(r)
+		if !s.failed {
+			s.doGet(nil)
+		}
+		return
+	case <-time.After(5 * time.Second):
+		// nothing happened for 5 s (a starved machine): void, the session ends without a verdict
+		s.mon.Count("first-use-void")
+		close(g.release)
+		if stA != nil {
+			stA.cancel()
+		}
+		s.failed = true
+		return
 	}
 	// B: the requests that overtake A
 	switch s.r.Intn(3) {
